@@ -41,8 +41,10 @@ def partition(A, env):
     return env.get('$flags', frozenset())
 
 
-def analyse(P, F, setters, watch=None, field_inv=None, param_init=None, extra_partition=None):
+def analyse(P, F, setters, watch=None, field_inv=None, param_init=None, extra_partition=None, post_call=None):
     h = Flags(setters, watch)
+    if post_call is not None:
+        h.post_call = post_call
     part = partition if extra_partition is None else (lambda A, env: (partition(A, env), extra_partition(A, env)))
     A = absint.Analyzer(P, F, hooks=h, field_inv=field_inv, param_init=param_init, partition=part)
     A.run()
